@@ -217,6 +217,21 @@ func main() {
 		seqs += 2
 		return true
 	})
+	// sizes: one very long text node, attribute value, Go string literal, comment and line of top-level Go (64 KiB and
+	// more: line-oriented readers and fixed-size scanners have their limits there), each with a tail to locate
+	for _, n := range []int{4095, 4096, 4097, 65535, 65536, 65537, 70000, 200000} {
+		fill := strings.Repeat("x", n)
+		for _, src := range []string{
+			"package p\n\ntempl T(x string) {\n\t<p>" + fill + "{ x }</p>\n\t<b>{ x }</b>\n}\n",
+			"package p\n\ntempl T(x string) {\n\t<p title=\"" + fill + "\" class={ x }>{ x }</p>\n}\n",
+			"package p\n\ntempl T(x string) {\n\t<p>{ \"" + fill + "\" + x }</p><b>{ x }</b>\n}\n",
+			"package p\n\ntempl T(x string) {\n\t<!-- " + fill + " -->\n\t<b>{ x }</b>\n}\n",
+			"package p\n\n// " + fill + "\nvar v = \"" + fill + "\"\n\ntempl T(x string) {\n\t<b>{ x }{ v }</b>\n}\n",
+			"package p\n\ntempl T(x string) {\n\t<script>var a = \"" + fill + "\"; var b = {{ x }};</script>\n}\n",
+		} {
+			jobs <- job{fmt.Sprintf("large input (%d-byte run)", n), "sizes", src}
+		}
+	}
 	close(jobs)
 	wg.Wait()
 	run.Cov["corpus_texts"] = len(corpus)
